@@ -134,6 +134,7 @@ pub mod subscriptions {
     /// TRUSTED (A-STUB): mirror of the two fields of `Subscription` the mapping reads
     pub struct Subscription { pub name: SubscriptionName, pub topic: WeakTopic }
 //@item src/subscriptions/errors.rs enum GetSubscriptionError drop-derive=thiserror::Error,Debug strip-attr=error
+//@item src/subscriptions/errors.rs enum CreateSubscriptionError drop-derive=thiserror::Error,Debug strip-attr=error
     /// TRUSTED (A-STUB): the manager's lookup (its map operations are under contract in bundle B4)
     pub struct SubscriptionManager { pub x: u64 }
     impl SubscriptionManager {
@@ -148,6 +149,7 @@ pub mod topics {
     use super::*;
     pub use super::subscriptions::Topic;
 //@item src/topics/errors.rs enum GetTopicError drop-derive=thiserror::Error,Debug strip-attr=error
+//@item src/topics/errors.rs enum CreateTopicError drop-derive=thiserror::Error,Debug strip-attr=error
     pub struct TopicManager { pub x: u64 }
     impl TopicManager {
         pub uninterp spec fn lookup(&self, name: TopicName) -> Result<Arc<Topic>, GetTopicError>;
@@ -241,6 +243,23 @@ pub mod subscriber {
 //@ closure 1 ensures (match $1 { GetSubscriptionError::DoesNotExist => st.code == Code::NotFound, GetSubscriptionError::Closed => st.code == Code::Internal })
 //@end
 
+    use super::subscriptions::CreateSubscriptionError;
+    use super::topics::GetTopicError;
+    // status mapping of the CreateSubscription handler (arms of the two `map_err(|e| match e {..})` closures, lifted)
+//@fn src/api/subscriber.rs SubscriberService::create_subscription tags=C10 name=create_subscription_topic_status head=match~e~{ tail=}
+//@ region /GetTopicError::DoesNotExist => \{/ /GetTopicError::Closed => conflict\(\),/ as fn create_subscription_topic_status(e: GetTopicError, topic_name: &TopicName) -> (r: Status)
+//@ # C10: CreateSubscription on an absent topic is NOT_FOUND
+//@ ensures[C10] e is DoesNotExist ==> r.code == Code::NotFound
+//@ ensures[C10] e is Closed ==> r.code == Code::FailedPrecondition
+//@end
+//@fn src/api/subscriber.rs SubscriberService::create_subscription tags=C10 name=create_subscription_status head=match~e~{ tail=}
+//@ region /CreateSubscriptionError::AlreadyExists => Status::already_exists\(/ /CreateSubscriptionError::Closed => conflict\(\),/ as fn create_subscription_status(e: CreateSubscriptionError, subscription_name: &SubscriptionName) -> (r: Status)
+//@ # C10: an existing name is ALREADY_EXISTS, a topic in another project INVALID_ARGUMENT
+//@ ensures[C10] e is AlreadyExists ==> r.code == Code::AlreadyExists
+//@ ensures[C10,C17] e is MustBeInSameProjectAsTopic ==> r.code == Code::InvalidArgument
+//@ ensures[C10] e is Closed ==> r.code == Code::FailedPrecondition
+//@end
+
 //@fn src/api/subscriber.rs map_to_subscription_resource tags=C10 keep-paths=1
 //@ ret r
 //@ # C10: a subscription read back reports its name, its topic (C11: the sentinel once the topic is deleted), ...
@@ -274,6 +293,14 @@ pub mod publisher {
 //@fn src/api/publisher.rs topic_not_found tags=C10
 //@ ret r
 //@ ensures[C10] r.code == Code::NotFound
+//@end
+    use super::topics::CreateTopicError;
+    // status mapping of the CreateTopic handler (arms of its `map_err(|e| match e {..})` closure, lifted)
+//@fn src/api/publisher.rs PublisherService::create_topic tags=C10 name=create_topic_status head=match~e~{ tail=}
+//@ region /CreateTopicError::AlreadyExists => Status::already_exists\(/ /CreateTopicError::Closed => conflict\(\),/ as fn create_topic_status(e: CreateTopicError) -> (r: Status)
+//@ # C10: CreateTopic on an existing name is ALREADY_EXISTS
+//@ ensures[C10] e is AlreadyExists ==> r.code == Code::AlreadyExists
+//@ ensures[C10] e is Closed ==> r.code == Code::FailedPrecondition
 //@end
     impl PublisherService {
 //@fn src/api/publisher.rs PublisherService::get_topic_internal tags=C10 keep-paths=1
